@@ -3,21 +3,21 @@ import Mb2.Lemmas.Arith
 import Mb2.Lemmas.Common
 namespace Mb2
 
-theorem payloadLen_release_small (k : HK) (hk : k = .ht ∨ k = .dummy) (size : Nat) (hs : size < 8) :
+theorem payloadLen_release_small (k : HK) (hk : k = .dummy) (size : Nat) (hs : size < 8) :
     payloadLen .release k size = .ok (size + W64 - 8) := by
   have hw := wrap_sub8 size hs
-  rcases hk with h | h <;> subst h <;> simp only [payloadLen] <;> rw [usub_wrap _ _ _ (by omega), hw]
+  subst hk; simp only [payloadLen]; rw [usub_wrap _ _ _ (by omega), hw]
 
-theorem payloadLen_release_small' (k : HK) (hk : k = .ht ∨ k = .dummy) (size : Nat) (hs : size < 8) :
+theorem payloadLen_release_small' (k : HK) (hk : k = .dummy) (size : Nat) (hs : size < 8) :
     ∃ x, payloadLen .release k size = .ok x ∧ x ≥ 2^63 ∧ (8 + x) % W64 = size ∧ ¬ (8 + x < W64) := by
   have hW := W64_eq
   exact ⟨_, payloadLen_release_small k hk size hs, by omega, wrap_add8 size hs, by omega⟩
 
-theorem refFromBytes_small_release (k : HK) (hk : k = .ht ∨ k = .dummy) (bytes : Bytes) (size : Nat)
+theorem refFromBytes_small_release (k : HK) (hk : k = .dummy) (bytes : Bytes) (size : Nat)
     (hs : size < 8) (hl : bytes.length = 8) (hsz : le32 bytes 4 = size) :
     refFromBytes .release k bytes = .ok (.error .invalidReportedTotalSize) := by
-  have hh : k.hsize = 8 := by rcases hk with h | h <;> subst h <;> rfl
-  have hso : k.sizeOff = 4 := by rcases hk with h | h <;> subst h <;> rfl
+  have hh : k.hsize = 8 := by subst hk; rfl
+  have hso : k.sizeOff = 4 := by subst hk; rfl
   obtain ⟨x, hx, hx2, _, _⟩ := payloadLen_release_small' k hk size hs
   unfold refFromBytes rd32
   rw [hl, hh, hso, if_pos (by omega)]
@@ -26,11 +26,11 @@ theorem refFromBytes_small_release (k : HK) (hk : k = .ht ∨ k = .dummy) (bytes
   simp only [Res.bind_ok, Res.pure_eq]
   rw [if_pos (by omega)]
 
-theorem refFromSlice_small_release (k : HK) (hk : k = .ht ∨ k = .dummy) (buf : Bytes) (off size : Nat)
+theorem refFromSlice_small_release (k : HK) (hk : k = .dummy) (buf : Bytes) (off size : Nat)
     (ho : off % 8 = 0) (hs : size < 8) (hsz : le32 buf (off + 4) = size) (hfit : off + 8 ≤ buf.length) :
     refFromSlice .release k off (slice buf off 8) = .ok (.error .invalidReportedTotalSize) := by
   have hl : (slice buf off 8).length = 8 := slice_length buf off _ hfit
-  have hh : k.hsize = 8 := by rcases hk with h | h <;> subst h <;> rfl
+  have hh : k.hsize = 8 := by subst hk; rfl
   unfold refFromSlice bytesRefTryFrom
   rw [hl, hh, if_neg (by omega), if_neg (by omega), if_neg (by omega)]
   simp only
@@ -89,8 +89,9 @@ theorem tagIterNext_eq (p : Profile) (k : HK) (hk : k = .tag ∨ k = .ht ∨ k =
       simp only [hc, if_true]
       rcases hk with h | h | h
       · subst h; simp only [payloadLen]; rw [if_neg (by omega)]; rfl
+      · subst h; simp only [payloadLen]; rw [if_neg (by omega)]; rfl
       all_goals
-        have hk2 : k = .ht ∨ k = .dummy := by simp [h]
+        have hk2 : k = .dummy := h
         cases p
         · subst h; simp only [payloadLen]; rw [usub_dev_panic _ _ _ (by omega)]; rfl
         · obtain ⟨x, hp, _, hx3, hx4⟩ := payloadLen_release_small' k hk2 size hs
